@@ -167,7 +167,79 @@ struct Msg {
     body: Vec<u8>,
 }
 
+/// One pipelined wire read through `HttpConn` over loopback; the events have the shape of `run_pipeline`'s.
+fn via_conn(out: &mut Out, sid: u64, wire: &[u8], listener: &std::net::TcpListener) {
+    use std::io::Write as _;
+    let mut client = std::net::TcpStream::connect(listener.local_addr().unwrap()).unwrap();
+    client.write_all(wire).unwrap();
+    client.shutdown(std::net::Shutdown::Write).unwrap();
+    let (s, peer) = listener.accept().unwrap();
+    let mut conn = HttpConn::new(peer, async_net::TcpStream::try_from(s).unwrap());
+    loop {
+        let res = catch(|| futures_lite::future::block_on(conn.read_request()));
+        let req = match res {
+            Err(()) => {
+                out.ev(sid, "Err", json!({"kind":"Panic"}));
+                break;
+            }
+            Ok(Err(e)) => {
+                out.ev(sid, "Err", json!({"kind": variant_name(&e)}));
+                break;
+            }
+            Ok(Ok(req)) => req,
+        };
+        let path = req.url.path().to_string();
+        let idx: u64 = path.strip_prefix("/m").and_then(|s| s.parse().ok()).unwrap_or(0);
+        let mut ev = request_json(&req, 0);
+        ev["idx"] = json!(idx);
+        ev["path"] = ints(path.as_bytes());
+        ev["method"] = ints(req.method.as_bytes());
+        out.ev(sid, "Req", ev);
+        if req.chunked || req.gzip {
+            out.ev(sid, "Refuse", json!({}));
+            break;
+        }
+        let known = matches!(req.body, RequestBody::PendingKnown(_));
+        let unknown = matches!(req.body, RequestBody::PendingUnknown);
+        if known || unknown {
+            match catch(|| futures_lite::future::block_on(conn.read_body_to_vec())) {
+                Ok(Ok(RequestBody::Vec(v))) => out.ev(sid, "Body", json!({"len": v.len(), "dig": digest(&v)})),
+                Ok(Err(e)) => {
+                    out.ev(sid, "Err", json!({"kind": variant_name(&e)}));
+                    break;
+                }
+                _ => {
+                    out.ev(sid, "Err", json!({"kind":"Panic"}));
+                    break;
+                }
+            }
+            if unknown {
+                out.ev(sid, "Eof", json!({}));
+                break;
+            }
+        }
+        // the request is answered, so that the connection is ready for the next one
+        if catch(|| futures_lite::future::block_on(conn.write_response(&Response::new(200)))).map_or(true, |r| r.is_err()) {
+            out.ev(sid, "Err", json!({"kind":"Panic"}));
+            break;
+        }
+    }
+    out.ev(sid, "End", json!({"unread": 0}));
+    // the client goes first and with a reset (SO_LINGER 0): no socket is left in TIME_WAIT, so hundreds of thousands of
+    // wires do not run out of ephemeral ports
+    {
+        use std::os::fd::AsRawFd;
+        let lg = libc::linger { l_onoff: 1, l_linger: 0 };
+        unsafe {
+            libc::setsockopt(client.as_raw_fd(), libc::SOL_SOCKET, libc::SO_LINGER, std::ptr::addr_of!(lg).cast(), std::mem::size_of::<libc::linger>() as u32);
+        }
+    }
+    drop(client);
+    drop(conn);
+}
+
 pub fn run_pipeline(args: &Args, mut out: Out) {
+    let conn_listener = std::net::TcpListener::bind("127.0.0.1:0").unwrap();
     let n = args.usize("n", 1000);
     let mut r = args.rng();
     for sid in 1..=(n as u64) {
@@ -248,6 +320,12 @@ pub fn run_pipeline(args: &Args, mut out: Out) {
             continue;
         }
         out.ev(sid, "Reset", json!({"sent": sent, "wirelen": wire.len()}));
+        if sid % 2 == 0 {
+            // the same wire through `HttpConn` on a real connection: its own read_request / read_body_to_vec keep the
+            // connection's buffer between calls, and whatever follows a body in that buffer is the next request
+            via_conn(&mut out, sid, &wire, &conn_listener);
+            continue;
+        }
         let cuts = random_cuts(&mut r, wire.len());
         let mut rd = ScriptedReader::with_cuts(wire.clone(), &cuts);
         let mut buf: FixedBuf<8192> = FixedBuf::new();
